@@ -396,6 +396,25 @@ func (c *BoolCtx) ZeroExpr(x *Int) *BExpr {
 // CondExpr is the boolean expression of the branch condition registered under key.
 func (c *BoolCtx) CondExpr(key string) *BExpr {
 	b := c.Conds[key]
+	if b != nil && len(b.Conj) > 0 {
+		e := BConst(true)
+		for _, m := range b.Conj {
+			var me *BExpr
+			switch {
+			case m.Cmp != nil:
+				me = c.CmpExpr(m.Cmp)
+			case m.Key != "":
+				me = BVar("cond:" + m.Key)
+			default:
+				return BVar("cond:" + key)
+			}
+			if m.Neg {
+				me = BNot(me)
+			}
+			e = BAnd(e, me)
+		}
+		return e
+	}
 	if b == nil || b.Cmp == nil {
 		return BVar("cond:" + key)
 	}
